@@ -183,6 +183,7 @@ def finalize_model(F):
         return None, "path explosion in finalize_with_options"
     M = FinModel()
     M.body = b
+    M.S = S
     M.of = of
     M.gf = gf
     M.paths = []
@@ -252,6 +253,48 @@ def ev_kinds(events):
     return out
 
 
+def _nonzero_count_of(F, M, lhs, arr):
+    """None if lhs is `ITER(arr).filter(|x| x != 0).count()` (adapter or counting-loop spelling), else a description"""
+    if not (lhs[0] == "call" and lhs[1].endswith("::count") and len(lhs[2]) == 1):
+        return "not a count"
+    f = lhs[2][0]
+    if not (f[0] == "call" and f[1].endswith("::filter") and len(f[2]) == 2):
+        return "count of something other than a filter"
+    src, cl = f[2]
+    while src[0] == "call" and src[1].rsplit("::", 1)[-1] in ("iter", "into_iter", "copied", "cloned") and len(src[2]) == 1:
+        src = src[2][0]
+    while src[0] in ("ref", "deref"):
+        src = src[-1]
+    if arr is not None and src != arr:
+        return "counts over %s, not the bucket array" % sym.fmt(src)[:80]
+    if not (cl[0] == "agg" and cl[1].startswith("closure:")):
+        return "filter predicate is not a closure"
+    nm = cl[1][len("closure:"):]
+    if nm.startswith("<counting-loop@"):
+        pred = M.S._counting_loops().get(int(nm[len("<counting-loop@"):-1]), {}).get("pred")
+        if pred is None:
+            return "counting loop without a predicate"
+        e, truth = n(pred[0]), pred[1]
+    else:
+        cb = F.fn(nm)
+        ps = [q for q in sym.Sym(cb).paths() if q.end == "return"] if cb is not None else []
+        if len(ps) != 1:
+            return "filter closure not understood"
+        e, truth = n(ps[0].ret), True
+    if e[0] == "bin" and e[1] == "Eq":
+        e, truth = ("bin", "Ne", e[2], e[3]), not truth
+    if e[0] == "bin" and e[1] == "Lt" and e[2] == C(0):
+        e = ("bin", "Ne", e[3], C(0))  # 0 < x on an unsigned value
+    if not (truth and e[0] == "bin" and e[1] == "Ne" and C(0) in (e[2], e[3])):
+        return "the predicate is %s%s, not `x != 0`" % ("" if truth else "not ", sym.fmt(e))
+    x = e[3] if e[2] == C(0) else e[2]
+    while x[0] in ("load", "deref", "ref"):
+        x = x[-1] if x[0] != "load" else x[1]
+    if x not in (("item",), P(2)):
+        return "the predicate tests %s, not the bucket value" % sym.fmt(x)
+    return None
+
+
 def finalize_skeleton(ctx, F, r):
     ctx.rule(r, "finalize skeleton: rejection order, selection ranks, arithmetic widths, emptiness tests, Ok value provenance", "N")
     M, err = finalize_model(F)
@@ -309,6 +352,7 @@ def finalize_skeleton(ctx, F, r):
     # find a path where quartiles are not the dummy constants
     agg_ok = None
     detail = None
+    buckets_arr = None
     for p in oks:
         for (bb, path, args, c) in p["p"].calls:
             if path.endswith("::aggregate_buckets") and len(args) == 5:
@@ -321,6 +365,9 @@ def finalize_skeleton(ctx, F, r):
                 if m is not None:
                     # `copy` is a different local than `buckets`, defined as a copy of it
                     cp, bk = m["copy"], m["buckets"]
+                    buckets_arr = bk
+                    while buckets_arr[0] in ("ref", "deref"):
+                        buckets_arr = buckets_arr[-1]
                     same = cp == bk
                     defs = b.defs().get(cp[1], []) if cp[0] == "lv" else []
                     is_copy = False
@@ -390,19 +437,10 @@ def finalize_skeleton(ctx, F, r):
                        "three-quarter-empty test compares %s with 0; reference q3" % sym.fmt(e[2]), cfg=F.key, trivial=True)
             if e[0] == "lt_const":
                 lhs = e[2]
-                ok = lhs[0] == "call" and lhs[1].endswith("::count") and e[3][0] == "cpath" and e[3][1].endswith("MIN_NONZERO_BUCKETS")
+                why = _nonzero_count_of(F, M, lhs, buckets_arr)
+                ok = why is None and e[3][0] == "cpath" and e[3][1].endswith("MIN_NONZERO_BUCKETS")
                 ctx.ob(r, ("finalize", "half-test-operands"), ok,
-                       "half-empty test is %s < %s; reference count(nonzero) < MIN_NONZERO_BUCKETS" % (sym.fmt(lhs), sym.fmt(e[3])), cfg=F.key, trivial=True)
-    # non-zero filter closure: x != 0
-    cl = [c for c in F.bodies if c.kind == "Closure" and c.d.get("parent") == b.path]
-    okc = False
-    for c in cl:
-        ps = [q for q in sym.Sym(c).paths() if q.end == "return"]
-        if len(ps) == 1:
-            e = n(ps[0].ret)
-            if e[0] == "bin" and e[1] == "Ne" and C(0) in (e[2], e[3]):
-                okc = True
-    ctx.ob(r, ("finalize", "nonzero-filter"), okc, "the non-zero bucket filter closure is not `x != 0`", cfg=F.key)
+                       "half-empty test is %s < %s (%s); reference count(non-zero buckets of the array that is aggregated) < MIN_NONZERO_BUCKETS" % (sym.fmt(lhs), sym.fmt(e[3]), why), cfg=F.key)
     # MIN_NONZERO_BUCKETS by value
     mins = F.impl_consts("buckets::constrained::FuzzyHashBucketsInfo<", "buckets::constrained::FuzzyHashBucketMapper")
     got = {k.split("<")[1].rstrip(">"): v.get("MIN_NONZERO_BUCKETS") for k, v in mins.items()}
